@@ -44,5 +44,6 @@ fn main() {
     engine::spawn_watchdog(prop.id());
     let r = engine::run_property(prop.as_ref(), tier, seed, &findings, None);
     ohsl_verif::calib::report();
+    ohsl_verif::props::c19::cleanup_scratch();
     std::process::exit(r.exit);
 }
